@@ -401,11 +401,211 @@ def setOnPath : Val → Path → Bool
 def researchOf (q : Path → Key → Val → Bool) (log : List (Path × Key × Val)) : List (Path × Val) :=
   (log.filter fun e => q e.1 e.2.1 e.2.2).map fun e => (e.1 ++ [e.2.1], e.2.2)
 
+/-- `research`'s `_enter` wrapper run over the sequence of `enter` calls `remap` makes: the query is
+    evaluated on each call, in order; a truthy answer appends `(path + (key,), value)` to the result;
+    a raising query (`none`) fails the whole call when `reraise` is set (`none`) and is skipped
+    otherwise.  Generic in the value type (tree values / heap objects). -/
+def researchRun {α : Type} (q : Path → Key → α → Option Bool) (reraise : Bool) :
+    List (Path × Key × α) → Option (List (Path × α))
+  | [] => some []
+  | (p, k, v) :: r =>
+    match q p k v with
+    | none => if reraise then none else researchRun q reraise r
+    | some false => researchRun q reraise r
+    | some true => (researchRun q reraise r).map fun l => (p ++ [k], v) :: l
+
+/-- the `enter` calls `research` hands to the query: the ones for the items nested in the root,
+    preceded - when `rootQ` is set - by the call for the root itself (`path=()`, `key=None`).  The
+    property speaks about nested items only: whether the root itself is queried / reported (under the
+    meaningless path `(None,)`) is a convention of the code, read off the implementation by a probe
+    on every run and handed to the model as `rootQ`; every theorem holds for both values. -/
+def researchCalls (rootQ : Bool) (root : Val) : List (Path × Key × Val) :=
+  (if rootQ then [([], Atom.none, root)] else []) ++ nestedLog root
+
+/-- `research(root, query, reraise)` on a tree value; `none` = the query raised and was re-raised -/
+def research (rootQ : Bool) (q : Path → Key → Val → Option Bool) (reraise : Bool) (root : Val) :
+    Option (List (Path × Val)) :=
+  researchRun q reraise (researchCalls rootQ root)
+
+/-- `get_path(root, path, default)`: the default replaces the `PathAccessError` -/
+def getPathD (root : Val) (path : Path) (dflt : Val) : Val := (getPath root path).getD dflt
+
 /-! ### the visitor family on trees -/
 def keepVisit : VisitFn Val := fun _ _ _ => .keep
 
 def progVisit (pr : Prog) : VisitFn Val := fun p k v =>
   (evalProg pr p k v.view).toVisit Val.leaf v
+
+/-- `ItemsView(d)` / `enumerate(seq)`: the items `default_enter` hands out, with their effective keys -/
+def enumT (kd : Kind) (i : Nat) : Items → List (Key × Val)
+  | .nil => []
+  | .cons k v r => (effKey kd i k, v) :: enumT kd (i + 1) r
+
+/-! ## custom `enter` / `exit` callbacks (tree level) -/
+
+/-- an `enter` callback: `none` = `(value, False)` (do not traverse: the value is handed to visit as
+    it is), `some (new_parent, items)` = traverse `items` -/
+abbrev EnterFn := Path → Key → Val → Option (Val × List (Key × Val))
+
+/-- an `exit` callback with all five arguments: path, key, old parent, new parent, new items -/
+abbrev GExitFn := Path → Key → Val → Val → List (Key × Val) → Val
+
+structure GCfg where
+  en : EnterFn
+  vf : VisitFn Val
+  ex : GExitFn
+
+mutual
+/-- the value handed to visit for the item `(k, v)` met at path `p`: the bottom-up recursion for
+    arbitrary callbacks (with fuel: an arbitrary `enter` may unfold for ever) -/
+def gValue (c : GCfg) : Nat → Path → Key → Val → Option Val
+  | 0, _, _, _ => none
+  | n + 1, p, k, v =>
+    match c.en p k v with
+    | none => some v
+    | some (np, items) =>
+      match gItems c n (p ++ [k]) items with
+      | none => none
+      | some its => some (c.ex p k v np its)
+/-- the new items of one container: each child rebuilt, then visited, left to right -/
+def gItems (c : GCfg) : Nat → Path → List (Key × Val) → Option (List (Key × Val))
+  | 0, _, _ => none
+  | _ + 1, _, [] => some []
+  | n + 1, p, (k, v) :: r =>
+    match gValue c n p k v with
+    | none => none
+    | some v' =>
+      match gItems c n p r with
+      | none => none
+      | some rest => some (applyVisit c.vf p k v' ++ rest)
+end
+
+/-- result of `remap(root, visit, enter, exit)` as a recursion -/
+inductive GRes | typeError | ok (v : Val)
+deriving Inhabited
+
+/-- the root is entered with the empty path and key `None`, and does not extend the path -/
+def gRoot (c : GCfg) (n : Nat) (root : Val) : Option GRes :=
+  match c.en [] .none root with
+  | none =>
+    -- not traversed: the root is handed to visit like any leaf; with nothing to append the result
+    -- to, `remap` raises `TypeError` - unless visit drops it, then the root itself is returned
+    if (applyVisit c.vf [] .none root).isEmpty then some (.ok root) else some .typeError
+  | some (np, items) =>
+    match gItems c n [] items with
+    | none => none
+    | some its => some (.ok (c.ex [] .none root np its))
+
+/-! the machine -/
+inductive GFrame
+  | item (k : Key) (v : Val)
+  | exit (k : Key) (old np : Val)
+
+structure GSt where
+  stack : List GFrame
+  path  : Path
+  nis   : List (Path × List (Key × Val))
+  value : Val
+  first : Bool          -- the next item popped is the root (`value is root`)
+  err   : Bool          -- `TypeError: expected remappable root`
+
+def gFrames (l : List (Key × Val)) : List GFrame := l.map fun kv => .item kv.1 kv.2
+
+def gstep (c : GCfg) (s : GSt) : Option GSt :=
+  if s.err then none else
+  match s.stack with
+  | [] => none
+  | .item k v :: rest =>
+    match c.en s.path k v with
+    | some (np, items) =>
+      some { s with stack := gFrames items ++ (.exit k v np :: rest),
+                    path := if s.first then s.path else s.path ++ [k],
+                    nis := (s.path, []) :: s.nis, first := false }
+    | none =>
+      match s.nis with
+      | [] =>
+        if (applyVisit c.vf s.path k v).isEmpty then some { s with stack := rest, value := v, first := false }
+        else some { s with stack := rest, value := v, first := false, err := true }
+      | (pp, acc) :: nr =>
+        some { s with stack := rest, value := v, first := false,
+                      nis := (pp, acc ++ applyVisit c.vf s.path k v) :: nr }
+  | .exit k old np :: rest =>
+    match s.nis with
+    | [] => some { s with stack := rest, err := true }
+    | (p, items) :: nr =>
+      match nr with
+      | [] => some { s with stack := rest, path := p, nis := [], value := c.ex p k old np items }
+      | (pp, acc) :: nr' =>
+        some { s with stack := rest, path := p, value := c.ex p k old np items,
+                      nis := (pp, acc ++ applyVisit c.vf p k (c.ex p k old np items)) :: nr' }
+
+def grun (c : GCfg) : Nat → GSt → GSt
+  | 0, s => s
+  | n + 1, s => match gstep c s with
+    | none => s
+    | some s' => grun c n s'
+
+def ginit (root : Val) : GSt := ⟨[.item .none root], [], [], root, true, false⟩
+
+/-- `remap(root, visit, enter, exit)` run for at most `m` loop iterations; `none` = still running -/
+def gRemapIter (c : GCfg) (m : Nat) (root : Val) : Option GRes :=
+  let s := grun c m (ginit root)
+  if s.err then some .typeError
+  else if s.stack.isEmpty then some (.ok s.value) else none
+
+/-- `default_enter` as an `enter` callback: scalars (str / bytes included) are not traversed; a container
+    gives an empty container of its own class and its items (dict items / enumerated members) -/
+def defaultEnterG : EnterFn := fun _ _ v =>
+  match v with
+  | .leaf _ => none
+  | .node kd its => some (.node kd .nil, enumT kd 0 its)
+
+/-- `default_exit` as a five-argument callback: it looks at the NEW parent only -/
+def defaultExitG : GExitFn := fun p k _ np items => defaultExit p k np items
+
+def dflt (vf : VisitFn Val) : GCfg := ⟨defaultEnterG, vf, defaultExitG⟩
+
+
+/-- `len(container)`; 0 for a scalar -/
+def Val.len : Val → Nat
+  | .leaf _ => 0
+  | .node _ its => its.length
+
+/-! ### table-defined `enter` / `exit` callbacks (interpreted identically by the Python harness) -/
+
+/-- `enter` callbacks: the default; containers of one kind are not traversed; the items are handed
+    over in reverse; items with one key are pruned before the traversal; the new parent is a list
+    whatever the old one was; nothing below a given depth is traversed -/
+inductive EnterP | dflt | skipKind (kd : Kind) | rev | skipKey (a : Atom) | asList | depthLimit (n : Nat)
+deriving Repr
+
+def evalEnter (e : EnterP) : EnterFn := fun p _ v =>
+  match v with
+  | .leaf _ => none
+  | .node kd its =>
+    match e with
+    | .dflt => some (.node kd .nil, enumT kd 0 its)
+    | .skipKind kd' => if kd = kd' then none else some (.node kd .nil, enumT kd 0 its)
+    | .rev => some (.node kd .nil, (enumT kd 0 its).reverse)
+    | .skipKey a => some (.node kd .nil, (enumT kd 0 its).filter fun kv => kv.1 != a)
+    | .asList => some (.node .list .nil, enumT kd 0 its)
+    | .depthLimit n => if n ≤ p.length then none else some (.node kd .nil, enumT kd 0 its)
+
+/-- `exit` callbacks: the default; `len(new_items)`; the list of the new items' keys; `len(path)`;
+    the tuple `(key, len(old_parent), default_exit(...))`; a container of the OLD parent's class -/
+inductive ExitP | dflt | count | keys | pathLen | keyOld | oldKind
+deriving Repr
+
+def evalExit (x : ExitP) : GExitFn := fun p k old np items =>
+  match x with
+  | .dflt => defaultExit p k np items
+  | .count => .leaf (.int items.length)
+  | .keys => .node .list (ofList (renumber 0 (items.map fun kv => Val.leaf kv.1)))
+  | .pathLen => .leaf (.int p.length)
+  | .keyOld => .node .tuple (ofList (renumber 0 [.leaf k, .leaf (.int old.len), defaultExit p k np items]))
+  | .oldKind => defaultExit p k old items
+
+def progCfg (e : EnterP) (pr : Prog) (x : ExitP) : GCfg := ⟨evalEnter e, progVisit pr, evalExit x⟩
 
 /-! ## heap level -/
 
@@ -599,6 +799,17 @@ def enterLog : List Ev → List (Path × Key × Obj)
   | .enter p k o _ :: r => (p, k, o) :: enterLog r
   | _ :: r => enterLog r
 
+/-- the `enter` calls `research` hands to the query on a heap (cf. `researchCalls`): `remap`'s first
+    `enter` call is the root's own -/
+def hresearchCalls (rootQ : Bool) (tr : List Ev) : List (Path × Key × Obj) :=
+  (if rootQ then (enterLog tr).take 1 else []) ++ (enterLog tr).drop 1
+
+/-- `research(root, query, reraise)` on a heap: `remap(root, enter=_enter)` with the default visit,
+    the query evaluated on the `enter` calls; `none` = the query raised and was re-raised -/
+def hresearch (rootQ : Bool) (q : Path → Key → Obj → Option Bool) (reraise : Bool) (h : Heap) (root : Obj) :
+    Option (List (Path × Obj)) :=
+  researchRun q reraise (hresearchCalls rootQ (hfinal ⟨hkeepVisit, true⟩ h root).trace)
+
 /-! ### the memoised bottom-up recursion (heap-level specification) -/
 
 /-- the part of the loop state the recursion threads through -/
@@ -668,6 +879,65 @@ def recRoot (c : HCfg) (h : Heap) (root : Obj) (n : Nat) : Option (RSt × Obj) :
       | some (st2, items) =>
         some (⟨(id, (exitNode nd.kind 0 items st2.out).2) :: st2.reg,
                (exitNode nd.kind 0 items st2.out).1, st2.trace ++ [.exit id]⟩,
+              (exitNode nd.kind 0 items st2.out).2)
+
+/-! ### the memoised recursion with raising visit callbacks -/
+
+/-- outcome of the memoised recursion when visit callbacks may raise: a result, or the state in
+    which a visit raised (and `reraise_visit` is set) -/
+inductive RRes (α : Type) | ok (st : RSt) (a : α) | raised (st : RSt)
+
+mutual
+def recValE (c : HCfg) (h : Heap) (root : Obj) : Nat → Path → Key → Obj → RSt → Option (RRes Obj)
+  | 0, _, _, _, _ => none
+  | n + 1, p, k, o, st =>
+    match o with
+    | .atom _ => some (.ok { st with trace := st.trace ++ [.enter p k o false] } o)
+    | .ref id =>
+      match lookup id st.reg with
+      | some v => some (.ok st v)
+      | none =>
+        match h[id]? with
+        | none => some (.ok { st with trace := st.trace ++ [.enter p k o false] } o)
+        | some nd =>
+          match recItemsE c h root n (if o = root then p else p ++ [k]) (enumItems nd.kind 0 nd.items) []
+              ⟨(id, .ref st.out.length) :: st.reg, st.out ++ [⟨nd.kind, []⟩],
+               st.trace ++ [.enter p k o true]⟩ with
+          | none => none
+          | some (.raised st2) => some (.raised st2)
+          | some (.ok st2 items) =>
+            some (.ok ⟨(id, (exitNode nd.kind st.out.length items st2.out).2) :: st2.reg,
+                   (exitNode nd.kind st.out.length items st2.out).1, st2.trace ++ [.exit id]⟩
+                  (exitNode nd.kind st.out.length items st2.out).2)
+def recItemsE (c : HCfg) (h : Heap) (root : Obj) :
+    Nat → Path → List (Key × Obj) → List (Key × Obj) → RSt → Option (RRes (List (Key × Obj)))
+  | 0, _, _, _, _ => none
+  | _ + 1, _, [], acc, st => some (.ok st acc)
+  | n + 1, p, (k, o) :: rest, acc, st =>
+    match recValE c h root n p k o st with
+    | none => none
+    | some (.raised st1) => some (.raised st1)
+    | some (.ok st1 val) =>
+      match visitOut c st1.out p k val with
+      | none => some (.raised { st1 with trace := st1.trace ++ [.visit p k o val] })
+      | some its =>
+        recItemsE c h root n p rest (acc ++ its) { st1 with trace := st1.trace ++ [.visit p k o val] }
+end
+
+def recRootE (c : HCfg) (h : Heap) (root : Obj) (n : Nat) : Option (RRes Obj) :=
+  match root with
+  | .atom _ => none
+  | .ref id =>
+    match h[id]? with
+    | none => none
+    | some nd =>
+      match recItemsE c h root n [] (enumItems nd.kind 0 nd.items) []
+          ⟨[(id, .ref 0)], [⟨nd.kind, []⟩], [.enter [] .none root true]⟩ with
+      | none => none
+      | some (.raised st2) => some (.raised st2)
+      | some (.ok st2 items) =>
+        some (.ok ⟨(id, (exitNode nd.kind 0 items st2.out).2) :: st2.reg,
+               (exitNode nd.kind 0 items st2.out).1, st2.trace ++ [.exit id]⟩
               (exitNode nd.kind 0 items st2.out).2)
 
 
